@@ -249,6 +249,87 @@ Definition client_download_file (reads : list bytes) : bytes :=
   h_content (stor_loop (h_open WB []) reads).
 
 (* ------------------------------------------------------------------------------------------ *)
+(* HOW THE CALLER CONSUMES a readable object (the stream handed out by download_stream /
+   get_stream, or a path-io file object): not one loop with one block size, but a PROGRAM.
+   The object is abstract: a state, one read `rd block o s` (o: the oracle of that read) and
+   what is still to come `rest s`.
+     CIter block k os   a new `iter_by_block(block)` loop left with `break` after at most k
+                        blocks (it also ends at the first empty read); `os`: one oracle per
+                        __anext__ (missing ones: dflt).  AsyncStreamIterator keeps no state
+                        besides `read_coro`, so RESUMING an interrupted iterator is another
+                        CIter with the same block size.
+     CRead n o          one direct `read(n)` between / after loops.
+   Whatever is left when the program ends is taken by a final `read()`. *)
+Section Consume.
+  Variables (St Or : Type).
+  Variable rd : nat -> Or -> St -> bytes * St.
+  Variable rest : St -> bytes.
+  Variable dflt : Or.
+
+  Inductive cop : Type :=
+  | CIter (block k : nat) (os : list Or)
+  | CRead (n : nat) (o : Or).
+
+  Fixpoint iter_take (k block : nat) (os : list Or) (s : St) : bytes * St :=
+    match k with
+    | O => ([], s)
+    | S k' =>
+        let '(d, s') := rd block (hd dflt os) s in
+        match d with
+        | [] => ([], s')
+        | _ :: _ => let '(r, s'') := iter_take k' block (tl os) s' in (d ++ r, s'')
+        end
+    end.
+
+  (* the iterator of seeded change C01-r6-2: every block handed out has already started the
+     read of the next one; when the loop is left, that block is never looked at *)
+  Fixpoint iter_take_prefetching (k block : nat) (os : list Or) (s : St) : bytes * St :=
+    match k with
+    | O => ([], s)
+    | S k' =>
+        let '(d, s') := rd block (hd dflt os) s in
+        match d with
+        | [] => ([], s')
+        | _ :: _ =>
+            match k' with
+            | O => (d, snd (rd block (hd dflt (tl os)) s'))
+            | S _ => let '(r, s'') := iter_take_prefetching k' block (tl os) s' in (d ++ r, s'')
+            end
+        end
+    end.
+
+  Definition cop_run (it : nat -> nat -> list Or -> St -> bytes * St) (op : cop) (s : St) : bytes * St :=
+    match op with
+    | CIter block k os => it k block os s
+    | CRead n o => rd n o s
+    end.
+
+  Fixpoint consume_with (it : nat -> nat -> list Or -> St -> bytes * St) (prog : list cop) (s : St) : bytes :=
+    match prog with
+    | [] => rest s
+    | op :: p => let '(d, s') := cop_run it op s in d ++ consume_with it p s'
+    end.
+
+  Definition consume := consume_with iter_take.
+
+  Definition cop_ok (op : cop) : Prop :=
+    match op with CIter block _ _ => 1 <= block | CRead n _ => 1 <= n end.
+End Consume.
+Arguments CIter {Or} _ _ _.
+Arguments CRead {Or} _ _.
+Arguments cop_ok {Or} _.
+
+(* the two readable objects of aioftp *)
+Definition sock_rd (block : nat) (o : nat * nat) (s : bytes * list bytes) : bytes * (bytes * list bytes) :=
+  sock_read block o (fst s) (snd s).
+Definition sock_rest (s : bytes * list bytes) : bytes := fst s ++ concat (snd s).
+Definition sock_consume (prog : list (cop (nat * nat))) (segs : list bytes) : bytes :=
+  consume _ _ sock_rd sock_rest (O, O) prog ([], segs).
+Definition file_rest (h : handle) : bytes := skipn (h_pos h) (h_content h).
+Definition file_consume (prog : list (cop nat)) (h : handle) : bytes :=
+  consume _ _ h_read file_rest O prog h.
+
+(* ------------------------------------------------------------------------------------------ *)
 (* end to end (the network preserves the byte stream: `segs` is any segmentation of the wire)   *)
 
 Definition e2e_stor (table : list string) (verb_mode : mode) (off : nat) (old : bytes)
